@@ -122,6 +122,9 @@ TOL_DIST = 1e-12
 QUANT = 1e-6
 TYPES_QUICK = ('R3', 'R2', 'U')
 TYPES_ALL = ('R3', 'R2', 'R2p', 'U')
+# a fifth type outside the full products: two rings of small pins in a thick-walled duct (FEWER edge cells per side
+# than R3 and a SMALLER pin pitch)
+TYPE_R2T = 'R2t'
 # hex side s faces direction ANG[s] (degrees); lattice step in axial coords
 ANG = (60.0, 0.0, -60.0, -120.0, 180.0, 120.0)
 STEP = ((0, 1), (1, 0), (1, -1), (0, -1), (-1, 0), (-1, 1))
@@ -155,9 +158,11 @@ def _templates():
     T = {'R3': S.design(3, oftf=OFTF),
          'R2': S.design(2, oftf=OFTF),
          'R2p': S.design(2, oftf=OFTF, pd=1.08, clearance='loose'),
-         'U': S.design(2, oftf=OFTF, lowfi={'model': 'simple'})}
+         'U': S.design(2, oftf=OFTF, lowfi={'model': 'simple'}),
+         'R2t': S.design(2, oftf=OFTF, duct_t=0.014)}
+    assert T['R2t']['pin_pitch'] < T['R3']['pin_pitch'], 'harness: R2t must have the smaller pin pitch'
     assign, pw = [], {}
-    for nm, (rg, p) in zip(TYPES_ALL, S.core_positions(2)):
+    for nm, (rg, p) in zip(TYPES_ALL + (TYPE_R2T,), S.core_positions(2)):
         assign.append([nm, rg, p, {'flowrate': 2.0}])
         pw[str(S.asm_id(rg, p) + 1)] = {'rings': T[nm]['num_rings'], 'nduct': 1,
                                         'cells': [0.0, 0.4], 'q': 800.0,
@@ -171,7 +176,7 @@ def _templates():
     tpl = {}
     with S.Built(scn) as b:
         inp = b.inp()             # real input parsing; no Reactor, so that a
-        for nm in TYPES_ALL:      # defect in Core cannot break the templates
+        for nm in TYPES_ALL + (TYPE_R2T,):      # defect in Core cannot break the templates
             mat = {'coolant': dassh.Material('sodium_se2anl_425'),
                    'duct': dassh.Material('ht9_se2anl_425')}
             tpl[nm] = dassh.assembly.Assembly(nm, (1, 0), inp.data['Assembly'][nm],
@@ -457,6 +462,14 @@ def run_case(c):
             r['transitions'] += 1
             core.load([tpl[t] for t in M.tname])
             r['transitions'] += 1
+            if c.get('then'):
+                # another Core, of another loading, built and loaded afterwards in this process: everything checked
+                # below is read from the FIRST one (what a Core keeps must be its own)
+                ty2 = [None if x == '-' else x for x in c['then'].split()]
+                al2 = np.array([float(p) if ty2[p] is not None else np.nan for p in range(len(ty2))])
+                core2 = Core(al2, PITCH, 3.0 * gap_flow, cool, inlet_temperature=623.15, model='flow')
+                core2.load([tpl[t] for t in ty2 if t is not None])
+                r['transitions'] += 2
     except (Exception, SystemExit) as e:
         bad('load-exception', 'Core()/Core.load raised %s: %s'
             % (type(e).__name__, str(e)[:200]), site=site_of(e))
@@ -791,6 +804,11 @@ def p7_cases(tier):
                 names[p] = t
             out.append(_case('p7', names))
     assert len(out) == (len(ty) + 1) ** 7 - 1
+    # the thick-walled two-ring type next to the three-ring one: every 7-position layout over {-, R3, R2t} with at
+    # least one R2t
+    for combo in itertools.product(('-', 'R3', TYPE_R2T), repeat=7):
+        if TYPE_R2T in combo:
+            out.append(_case('p7', list(combo)))
     return out
 
 
@@ -841,6 +859,10 @@ def main(run):
     # and a thousand times less (cells of 1e-10 kg/s and below)
     low += [dict(x, part='p7low', gap_flow=2.0e-8) for x in c7 if x['n_asm'] == 7]
     run.explore('p7low', low, run_case, budget_s=60, chunksize=64)
+    # a second Core built afterwards (two fixed loadings) - every fully occupied and every two-assembly loading first
+    then = [dict(x, part='p7then', then=t2) for x in c7 if x['n_asm'] in (2, 7) and 'R2t' not in x['layout']
+            for t2 in ('R2 - U - R3 - -', 'U R3 R3 R2 U R2 R3')]
+    run.explore('p7then', then, run_case, budget_s=120, chunksize=64)
     run.explore('p19', c19, run_case, budget_s=120, chunksize=4)
     run.explore('p37', c37, run_case, budget_s=300, chunksize=1)
     # cross-case: total area identical for every type assignment of one subset
